@@ -9,3 +9,156 @@ package modules
 //@ func (*Module).StartLowPriorityMicroTask
 //@   trusted
 //@   pure
+
+// ---- C06: a panic in managed code is contained, reported and leaves the accounting intact
+
+//@ func (*Module).NewPanicError
+//@   requires m != nil
+//@   modifies *
+//@   ensures r0 != nil && fresh(r0) && r0.PanicValue == panicValue && r0.Severity == "panic" && r0.TaskName == taskName && r0.TaskType == taskType
+
+//@ func (*ModuleError).Report
+//@   requires me != nil
+//@   modifies lastReportedError
+//@   ensures lastReportedError == me
+
+//@ func IsPanic
+//@   ensures r0 == typeIs(err, *ModuleError)
+
+// (checkIfStopComplete is under contract for C05; here only its frame matters)
+//@ func (*Module).checkIfStopComplete
+//@   trusted
+//@   requires m != nil
+//@   pure
+
+// runWorker: the panic of fn never leaves; it comes back as a reported *ModuleError carrying the panic value
+//@ func (*Module).runWorker
+//@   requires m != nil
+//@   modifies *
+//@   maypanic dynamic
+//@   recovers
+//@   ghost var panicked bool = false
+//@   ghost var pv any = nil
+//@   ghost var fnErr error = nil
+//@   ghost var reported *ModuleError = nil
+//@   ghost var made *ModuleError = nil
+//@   at after dynamic ghost fnErr = ret0
+//@   at after (*Module).NewPanicError ghost pv = arg3
+//@   at after (*Module).NewPanicError ghost made = ret0
+//@   at call (*ModuleError).Report ghost reported = arg0
+//@   ensures panicked ==> err != nil && typeIs(err, *ModuleError) && made != nil && reported == made && made.PanicValue == pv && pv != nil && made.Severity == "panic"
+//@   ensures !panicked ==> err == fnErr
+
+// counters of a module are valid cells
+//@ spec cntOK(m *Module) bool = m != nil && m.workerCnt != nil && m.taskCnt != nil && m.microTaskCnt != nil
+
+// Accounting is stated as NET CONTRIBUTION: the sum of this function's own atomic additions to
+// the counter is zero on every exit (also after a recovered panic). Summed over all threads this
+// is the counter's value; it does not depend on what the callee did to the counter meanwhile.
+
+// RunWorker: blocking variant returns the (panic) error; net contribution to the worker counter is 0
+//@ func (*Module).RunWorker
+//@   requires m == nil || cntOK(m)
+//@   modifies *
+//@   ghost var net int32 = 0
+//@   ghost var inner error = nil
+//@   at call atomic.AddInt32 assert arg0 == m.workerCnt
+//@   at call atomic.AddInt32 ghost net = net + arg1
+//@   at after (*Module).runWorker ghost inner = ret0
+//@   ensures m != nil ==> net == 0 && r0 == inner
+//@   ensures m == nil ==> r0 != nil
+
+// service workers: net contribution 0, and the loop is left only when the worker ended without
+// error, was cancelled, the module stops or its context ends - any other error (also a panic error) restarts it
+//@ func (*Module).runServiceWorker
+//@   requires cntOK(m)
+//@   nopanic off
+//@   modifies *
+//@   ghost var net int32 = 0
+//@   ghost var lastErr error = nil
+//@   ghost var stopping bool = false
+//@   ghost var cancelled bool = false
+//@   ghost var selected int = 0
+//@   at call atomic.AddInt32 assert arg0 == m.workerCnt
+//@   at call atomic.AddInt32 ghost net = net + arg1
+//@   at after (*Module).IsStopping ghost stopping = ret0
+//@   at after (*Module).runWorker ghost lastErr = ret0
+//@   at after errors.Is#0 ghost cancelled = ret0
+//@   at after (*Module).runWorker ghost selected = 0
+//@   at select ghost selected = 1
+//@   at return assert stopping || lastErr == nil || cancelled || selected == 1
+//@   ensures net == 0
+//@   loop 0 invariant net == 1
+
+// lifecycle control functions: a panic is recovered, reported, and turned into exactly one error on the result channel
+//@ func (*Module).startCtrlFn$1
+//@   requires m != nil && ctrlFnError != nil
+//@   modifies *
+//@   maypanic dynamic
+//@   recovers
+//@   ghost var panicked bool = false
+//@   ghost var sent int = 0
+//@   ghost var sentNonNil bool = false
+//@   ghost var unset bool = false
+//@   ghost var reported bool = false
+//@   at send ghost sent = sent + 1
+//@   at send ghost sentNonNil = (value != nil)
+//@   at call (*ModuleError).Report ghost reported = true
+//@   at call (*AtomicBool).UnSet ghost unset = true
+//@   ensures sent == 1 && unset
+//@   ensures panicked ==> sentNonNil && reported
+
+// t.cancelCtx only ever holds the cancel function of a context (context.WithCancel): no effect on module state
+//@ func field.Task.cancelCtx
+//@   trusted
+//@   pure
+
+// tasks: panic recovered and reported; net contribution to the task counter 0; the task can run again
+//@ func (*Task).executeWithLocking
+//@   requires t != nil && t.module != nil && cntOK(t.module)
+//@   nopanic off
+//@   modifies *
+//@   maypanic dynamic
+//@   recovers
+//@   ghost var panicked bool = false
+//@   ghost var reported bool = false
+//@   ghost var net int32 = 0
+//@   at call atomic.AddInt32 ghost net = net + arg1
+//@   at call (*ModuleError).Report ghost reported = true
+//@   ensures net == 0
+//@   ensures panicked ==> reported
+//@   at return assert !t.executing
+
+//@ func (*Module).concludeMicroTask
+//@   requires cntOK(m)
+//@   nopanic off
+//@   modifies *
+//@   ghost var netMod int32 = 0
+//@   ghost var netGlobal int32 = 0
+//@   at call atomic.AddInt32#0 assert arg0 == m.microTaskCnt
+//@   at call atomic.AddInt32#0 ghost netMod = netMod + arg1
+//@   at call atomic.AddInt32#1 assert arg0 == microTasks
+//@   at call atomic.AddInt32#1 ghost netGlobal = netGlobal + arg1
+//@   ensures netMod == -1 && netGlobal == -1
+
+// microtasks: the panic is returned as module error to the blocking variants; the per-module
+// count goes +1 then -1 via concludeMicroTask on every exit
+//@ func (*Module).runMicroTask
+//@   requires cntOK(m)
+//@   nopanic off
+//@   modifies *
+//@   maypanic dynamic
+//@   recovers
+//@   ghost var panicked bool = false
+//@   ghost var reported bool = false
+//@   ghost var fnErr error = nil
+//@   ghost var inc int32 = 0
+//@   ghost var concluded int = 0
+//@   at after dynamic ghost fnErr = ret0
+//@   at call atomic.AddInt32 assert arg0 == m.microTaskCnt
+//@   at call atomic.AddInt32 ghost inc = inc + arg1
+//@   at call (*Module).concludeMicroTask ghost concluded = concluded + 1
+//@   at call (*ModuleError).Report ghost reported = true
+//@   ensures inc == 1 && concluded == 1
+//@   ensures panicked ==> err != nil && typeIs(err, *ModuleError) && reported
+//@   ensures !panicked ==> err == fnErr
